@@ -15,7 +15,7 @@ JOIN_T = 0.15
 SLACK = 1.5 * float(os.environ.get('VERIF_TIME_SCALE', '1'))
 
 
-def _wait_really_dead(p, method, timeout=20):
+def _wait_really_dead(p, method, timeout=20, sentinel=None):
     """barrier that does not go through the code under test where possible"""
     t0 = time.time()
     if method in ('fork', 'spawn'):
@@ -28,9 +28,11 @@ def _wait_really_dead(p, method, timeout=20):
                 return True
             time.sleep(0.005)
         return False
-    # forkserver: the child is not ours; its death is announced on the sentinel pipe
-    from billiard.connection import wait
-    return bool(wait([p.sentinel], timeout))
+    # forkserver: the child is not ours; its death is announced on the sentinel pipe (watched
+    # through a duplicate of the descriptor taken at start, with the kernel's own select)
+    import select
+    r, _, _ = select.select([sentinel], [], [], timeout)
+    return bool(r)
 
 
 def scenario(method, how, schedule):
@@ -97,6 +99,7 @@ def scenario(method, how, schedule):
 
     p.start()
     r.close()
+    sentinel = os.dup(p.sentinel)
     st['phase'] = 'running'
     rec({'e': 'start'})
     try:
@@ -105,7 +108,7 @@ def scenario(method, how, schedule):
             if st.get('stuck_join'):
                 return obs
         w.send_bytes(b'go')
-        if not _wait_really_dead(p, method):
+        if not _wait_really_dead(p, method, sentinel=sentinel):
             rec({'e': 'harness_timeout'})
             return obs
         st['phase'] = 'ended'
@@ -113,6 +116,10 @@ def scenario(method, how, schedule):
         for k in schedule[1]:
             observe(k)
     finally:
+        try:
+            os.close(sentinel)
+        except OSError:
+            pass
         try:
             w.close()
         except Exception:
